@@ -12,6 +12,7 @@
 #ifndef TLX_CONTAINER_D_ARY_ADDRESSABLE_INT_HEAP_HEADER
 #define TLX_CONTAINER_D_ARY_ADDRESSABLE_INT_HEAP_HEADER
 
+#include <algorithm>
 #include <cassert>
 #include <cstddef>
 #include <functional>
@@ -392,7 +393,8 @@ private:
                 heap_[cur] = std::move(value);
             }
         }
-        // initialize handles_ vector
+        // initialize handles_ vector: forget the previous contents
+        std::fill(handles_.begin(), handles_.end(), not_present());
         handles_.resize(
             std::max(handles_.size(), static_cast<size_t>(max_key) + 1),
             not_present());
